@@ -64,6 +64,8 @@ def gen(rng, tier):
             for k, h in enumerate(hs):
                 if h and h["sh_type"] in (5, 0x6ffffff6):
                     data = elfgen.patch(data, meta, "shdr", "sh_size", rng.choice([0, 4, 7] if h["sh_type"] == 5 else [0, 8, 15]), k)
+        if hs and rng.random() < 0.12:
+            data = streamgen.odd_shstrtab(rng, data, meta)
         dupq = []
         if hs and len(hs) >= 3 and rng.random() < 0.3:
             # the same name string read from two different offsets of the name table (a tail of a longer name, a second
